@@ -34,7 +34,8 @@ VARIANTS = [
 
 def generate(seed, stratum, tier):
   rng = random.Random(seed)
-  kw = {'decline_bias': rng.choice([0.1, 0.3]), 'p_swallow': rng.choice([0.0, 0.15, 0.3]), 'p_mute': rng.choice([0.0, 0.3, 0.6])}
+  kw = {'decline_bias': rng.choice([0.1, 0.3]), 'p_swallow': rng.choice([0.0, 0.15, 0.3]), 'p_mute': rng.choice([0.0, 0.3, 0.6]),
+        'p_decline_query': rng.choice([0.0, 0.3, 0.6])}     # callbacks that look at the chart and then decline
   sc = cc.gen_chart_scenario(rng, combos=[('queued', 'closure-spied')], nops=(4, 25), spec_kw=kw, flags=False)
   sc['variants'] = [0] + sorted(rng.sample(range(1, len(VARIANTS)), 3 if tier == 'quick' else 6))
   sc['twin'] = rng.random() < 0.4
